@@ -74,7 +74,7 @@ def judge(req, impl, f, prev):
 
 
 SPEC = dict(
-    prop='C12', lean_mod='Rivia.Props.C12', gen=gen, judge=judge,
+    prop='C12', lean_mod='Rivia.Props.C12,Rivia.Props.C12R', gen=gen, judge=judge,
     rule='every Memfs method on every string over the adversarial alphabet {/ . ~ $ : { } a é 漢 😀} up to the bound (on a populated tree), random histories of all profiles, an abusive stream with 70% garbage arguments; '
          'every public path/string/iterator helper on all adversarial strings up to the bound and random longer ones (counts in coverage.pure_*). Each call runs under catch_unwind with a process-level watchdog; '
          'after every call the state dump is taken (it fails when the lock is poisoned). distinct = distinct (pre-state, call) pairs',
